@@ -49,9 +49,7 @@ Proof.
     rewrite IHw by (rewrite ?Hq; lia).
     cbn [app parse_decimal]. rewrite digit_char by lia.
     unfold schar. destruct (48 + n mod 10 <? 128) eqn:E; [|apply Z.ltb_ge in E; lia].
-    replace (acc * 10 ^ Z.of_nat w + Z.quot n 10 <? 0) with false
-      by (symmetry; apply Z.ltb_ge; rewrite Hq; nia).
-    rewrite orb_false_r. f_equal. f_equal. f_equal. rewrite Hq. lia.
+    f_equal. f_equal. f_equal. rewrite Hq. lia.
 Qed.
 
 Lemma take_digits_format0 : forall w n acc rest, 0 <= n < 10 ^ Z.of_nat w ->
@@ -90,8 +88,7 @@ Proof.
     apply andb_prop in E. destruct E as [E1 E2]. apply Z.leb_le in E1. apply Z.leb_le in E2.
     cbn [app parse_decimal].
     assert (Hs : schar c = c) by (unfold schar; destruct (c <? 128) eqn:E; [reflexivity|apply Z.ltb_ge in E; lia]).
-    rewrite Hs. replace (acc <? 0) with false by (symmetry; apply Z.ltb_ge; lia). rewrite orb_false_r.
-    replace (8 * acc + 2 * acc + (c - 48)) with (10 * acc + (c - 48)) by lia.
+    rewrite Hs. replace (acc * 10 + (c - 48)) with (10 * acc + (c - 48)) by lia.
     destruct (IHw l (10 * acc + (c - 48)) ub v r tail H ltac:(lia)) as [P B].
     split; [exact P|]. rewrite Nat2Z.inj_succ, Z.pow_succ_r by lia. nia.
 Qed.
